@@ -1,5 +1,6 @@
 import Hv.Driver.Core
 import Hv.Vhd
+import Hv.Footprint
 namespace Hv.Driver
 open Hv
 
@@ -22,6 +23,15 @@ def vhdCmd (st : St) : List String → String
     | .ok v, some o, some l => fmtBytes (slice v.guest o (min l (v.size - o)))
     | .error e, _, _ => s!"err {e}"
     | _, _, _ => "bad-args"
+  | ["vhd.footprint", id, off, len] =>
+    match vhdOpen st id, off.toNat?, len.toNat? with
+    | .ok v, some o, some l => Footprint.render (Footprint.vhd v o l)
+    | .error e, _, _ => s!"err {e}"
+    | _, _, _ => "bad-args"
+  | ["vhd.openfp", id] =>
+    match st.file? id with
+    | some fh => Footprint.render (Footprint.vhdOpen fh)
+    | none => "bad-args"
   | "vhd.stream" :: id :: align :: ops =>
     match vhdOpen st id, align.toNat? with
     | .ok v, some a => runStream v.read v.size a ops
